@@ -107,7 +107,7 @@ Variable s0 : sess.
 Lemma wr_queue_for_send s t hdr body ir ok : Wr s0 s -> Wr s0 (queue_for_send s t hdr body ir ok).
 Proof. intros H. unfold queue_for_send. wr_go. Qed.
 Lemma wr_enqueue_bytes s m : okw m -> Wr s0 s -> Wr s0 (enqueue_bytes_and_send s m).
-Proof. intros Hm H. unfold enqueue_bytes_and_send. apply wr_send_queued, wr_enqueue; assumption. Qed.
+Proof. intros Hm H. unfold enqueue_bytes_and_send. apply wr_send_queued, wr_enqueue; [assumption|]. destruct (is_logged_on (s_st s)); [assumption | apply wr_drop_queued; assumption]. Qed.
 Lemma wr_drop_and_send s t body ir : Wr s0 s -> Wr s0 (drop_and_send_in_reply_to s t body ir).
 Proof. intros H. unfold drop_and_send_in_reply_to. wr_go. Qed.
 Lemma wr_drop_and_reset s : Wr s0 s -> Wr s0 (drop_and_reset s).
